@@ -11,6 +11,9 @@ the converted types), and member access on a reference, which *forwards to the r
 
 Values carry what casting looks at: their dynamic (static) type.  Arrays, dictionaries, composites,
 capabilities, paths, numbers, … are `atom ty repr` (`repr` stands for the contents, which no cast reads).
+Resources are values like the others — `atom ty repr` with a resource-kinded `ty` (`Ty.isResource`: the
+kind sits in the composite / interface type); that a cast *moves* them is not modelled (the stream's
+scripts move the value into the cast and destroy the result).
 -/
 import Verif.Model.Types.Subtype
 namespace Verif.Model.Cast
@@ -151,6 +154,18 @@ def castForce (rules : List Rule) (fuel : Nat) (v : DVal) (target : Ty) : Except
   let v' := unboxForCast target v
   if isSub rules fuel (dynType v') target then .ok (castResult target v') else .error ()
 
+/-- the VM's `v as? T` (`opFailableCast`): the same steps, but the test is the *run-time* relation on
+    static types (`context.IsSubType` = `interpreter.IsSubType`), where the interpreter asks the
+    checker's relation on the converted types -/
+def castFailableVM (rules : List Rule) (fuel : Nat) (v : DVal) (target : Ty) : Option DVal :=
+  let v' := unboxForCast target v
+  if isSubRuntime rules fuel (dynType v') target then some (castResult target v') else none
+
+/-- the VM's `v as! T` (`opForceCast`) -/
+def castForceVM (rules : List Rule) (fuel : Nat) (v : DVal) (target : Ty) : Except Unit DVal :=
+  let v' := unboxForCast target v
+  if isSubRuntime rules fuel (dynType v') target then .ok (castResult target v') else .error ()
+
 /-- `v.isInstance(T)`: member access on a reference forwards to the referenced value; otherwise
     `IsInstance`: the run-time relation between the value's static type and `T` -/
 def isInstance (rules : List Rule) (fuel : Nat) : DVal → Ty → Bool
@@ -165,6 +180,35 @@ def getType : DVal → Ty
 /-- `v.getType().isSubtype(of: T)`: `MetaTypeIsSubType`, the checker's relation -/
 def getTypeIsSubtype (rules : List Rule) (fuel : Nat) (v : DVal) (t : Ty) : Bool :=
   isSub rules fuel (getType v) t
+
+/-- `n` optional layers around a type -/
+def optN : Nat → Ty → Ty
+  | 0, t => t
+  | n + 1, t => .opt (optN n t)
+
+/-- number of optional layers of a type -/
+def optDepth : Ty → Nat
+  | .opt t => optDepth t + 1
+  | _ => 0
+
+/-- `n` `SomeValue` layers around a value -/
+def someN : Nat → DVal → DVal
+  | 0, v => v
+  | n + 1, v => .some (someN n v)
+
+/-- number of `SomeValue` layers of a value -/
+def DVal.depth : DVal → Nat
+  | .some v => v.depth + 1
+  | _ => 0
+
+/-- The property's optional rule as a statement about the *run-time type of a successful cast's result*
+    (independent of `castResult` / `boxOptional`): the cast looks at the value with all its optional
+    layers removed — unless the target is `AnyStruct` / `AnyResource` or an optional of them, then the
+    value keeps its layers — and the result is that value with as many layers added as the target type
+    has more.  (For values whose type mentions no reference: no conversion applies.) -/
+def specResultType (v : DVal) (target : Ty) : Ty :=
+  let keep := if isAnyStructOrResource (unwrapOptionalType target) then v.depth else 0
+  optN (max keep (optDepth target)) (dynType (unbox v))
 
 /-- no reference type anywhere inside (then no conversion of a cast touches the value) -/
 def noRef : Ty → Bool
